@@ -166,6 +166,9 @@ type step struct {
 
 type replay struct {
 	Ops []string `json:"ops"`
+	// Unobserved lists the steps after which the point was NOT read back (reads may touch lookup state
+	// inside the point; a sequence must also hold when nobody looks in between).
+	Unobserved []int `json:"unobserved_steps,omitempty"`
 }
 
 func dtypeOf(v any) ast.DType {
@@ -263,7 +266,9 @@ func present(s snapshot, k string) bool {
 }
 
 // apply runs one operation and checks its postcondition and the invariants.
-func apply(t rk.Failer, p *input.Point, o op) string {
+func apply(t rk.Failer, p *input.Point, o op) string { return applyObs(t, p, o, true) }
+
+func applyObs(t rk.Failer, p *input.Point, o op, observe bool) string {
 	before := snap(p)
 	err, crash := impl.RunV1(load(t, o.Text), p, nil)
 	if crash != nil {
@@ -332,6 +337,9 @@ func apply(t rk.Failer, p *input.Point, o op) string {
 			}
 		}
 	}
+	if !observe {
+		return ""
+	}
 	return invariants(t, p)
 }
 
@@ -389,6 +397,71 @@ func TestBreadthFirst(t *testing.T) {
 	evid.Exhaustive(fmt.Sprintf("operation sequences to depth %d with abstract-state de-duplication", depth), transitions)
 }
 
+// TestUnobservedSequences: every sequence of up to three operations from a reduced operation set (two keys,
+// one value per kind), executed without reading the point back in between; the invariants are evaluated at the
+// end only. No de-duplication: the point may hold lookup state that the abstract state does not show.
+func TestUnobservedSequences(t *testing.T) {
+	pick := map[string]bool{}
+	for _, k := range []string{"f", "x", "t"} {
+		for _, s := range []string{
+			"add_key(%s, 5)", "add_key(%s, \"s\")", "add_key(%s, nil)", "set_tag(%s)", "set_tag(%s, \"tv\")", "drop_key(%s)", "cast(%s, \"str\")", "cast(%s, \"int\")", "uppercase(%s)", "set_measurement(%s, true)",
+		} {
+			pick[fmt.Sprintf(s, k)] = true
+		}
+	}
+	for _, r := range []string{"rename(x, f)", "rename(f, x)", "rename(f, t)", "rename(t, f)", "rename(x, t)", "rename(t, x)", "rename(y, f)"} {
+		pick[r] = true
+	}
+	var ops []op
+	for _, o := range allOps() {
+		if pick[o.Text] {
+			ops = append(ops, o)
+		}
+	}
+	n := 0
+	depth := evid.Scale(3, 4)
+	var rec func(p *input.Point, path []string, hot bool)
+	rec = func(p *input.Point, path []string, hot bool) {
+		if len(path) == depth {
+			return
+		}
+		for oi, o := range ops {
+			if len(path) == 0 && oi%evid.NShards() != evid.Shard() {
+				continue
+			}
+			// the point is rebuilt from scratch for every sequence: a clone would not carry hidden lookup state
+			q := newPoint()
+			np := append(append([]string{}, path...), o.Text)
+			var unobs []int
+			msg := ""
+			for i, txt := range np {
+				var oo op
+				for _, c := range ops {
+					if c.Text == txt {
+						oo = c
+					}
+				}
+				last := i == len(np)-1
+				if !last {
+					unobs = append(unobs, i)
+				}
+				if msg = applyObs(t, q, oo, last); msg != "" {
+					break
+				}
+			}
+			if msg != "" {
+				rk.Fail(t, "unobserved", replay{Ops: np, Unobserved: unobs}, "%s\noperations (point read back only at the end): %s", msg, strings.Join(np, " ; "))
+			}
+			h := hot || affects(o)
+			evid.Case("unobserved:"+strings.Join(np, ";"), h, fmt.Sprintf("unobserved-depth-%d", len(np)))
+			n++
+			rec(q, np, h)
+		}
+	}
+	rec(newPoint(), nil, false)
+	evid.Exhaustive(fmt.Sprintf("%d reduced operations, all sequences up to length %d, read back only at the end", len(ops), depth), n)
+}
+
 func TestRandomSequences(t *testing.T) {
 	ops := allOps()
 	rk.Check(t, "random", 1, evid.Scale(600, 6000), func(t *rapid.T) {
@@ -398,6 +471,7 @@ func TestRandomSequences(t *testing.T) {
 		hot := false
 		hotAccess := false
 		touched := map[string]bool{}
+		var unobs []int
 		for i := 0; i < n; i++ {
 			o := ops[rapid.IntRange(0, len(ops)-1).Draw(t, "op")]
 			if rapid.IntRange(0, 2).Draw(t, "bias") == 0 {
@@ -410,8 +484,12 @@ func TestRandomSequences(t *testing.T) {
 			if touched[o.K] || touched[o.K2] {
 				hotAccess = true
 			}
-			if msg := apply(t, p, o); msg != "" {
-				rk.Fail(t, "random", replay{Ops: path}, "%s\noperations: %s", msg, strings.Join(path, " ; "))
+			observe := i == n-1 || rapid.IntRange(0, 2).Draw(t, "observe") == 0
+			if !observe {
+				unobs = append(unobs, i)
+			}
+			if msg := applyObs(t, p, o, observe); msg != "" {
+				rk.Fail(t, "random", replay{Ops: path, Unobserved: unobs}, "%s\noperations: %s\n(point not read back after steps %v)", msg, strings.Join(path, " ; "), unobs)
 			}
 			if affects(o) {
 				hot = true
@@ -421,7 +499,8 @@ func TestRandomSequences(t *testing.T) {
 				}
 			}
 		}
-		evid.Case(strings.Join(path, ";"), hot && hotAccess, "random-sequence")
+		evid.Case(strings.Join(path, ";")+fmt.Sprint(unobs), hot && hotAccess, "random-sequence")
+		evid.LabelN("random-steps-not-read-back", len(unobs))
 		if hot && hotAccess && n < 10 {
 			var ks []string
 			for k := range p.Tags {
@@ -463,7 +542,13 @@ func TestReplays(t *testing.T) {
 				if !ok {
 					o = op{Text: txt, Kind: "other"}
 				}
-				if msg := apply(t, p, o); msg != "" {
+				observe := true
+				for _, u := range r.Case.Unobserved {
+					if u == i {
+						observe = false
+					}
+				}
+				if msg := applyObs(t, p, o, observe); msg != "" {
 					rk.Fail(t, "replay", r.Case, "step %d (%s): %s", i, txt, msg)
 				}
 			}
